@@ -58,6 +58,16 @@ CHECKS = {
         "note": "float64 delay tolerance 16 eps K|DM|(f^-2+fref^-2); a delay within float-evaluation error of a half-integer accepts either rounding",
         "technique": "property-based testing: Hypothesis vs exact-rational law; source tracing through index-coded data",
     },
+    "C07": {
+        "text": "Generated Phase operands (counts to 2^52, fractions incl. +-1/2, denormals, unnormalised inputs; scalars and arrays; real and imaginary) "
+                "combined with every operand kind (Python/NumPy scalars, 0-d/n-d arrays, Quantities, Phases; both orders; in-place and out= forms) and "
+                "checked against exact rational arithmetic to 2^-52 cycles: construction, + - neg abs, * / by dimensionless numbers (i*i = -1), floor "
+                "division/remainder/divmod with angular divisors (q integral, q*d+r exact, r in [0,d), mutually consistent), sin/cos/exp(i phase) on the "
+                "fraction only; results must be normalised two-part Phases. Exploration.",
+        "ref": "DESIGN.md section 4 C07",
+        "note": "Phase divisors are restricted to values that fit one double (the repaired code uses a Phase divisor as a regular Angle); |results| <= 2^52",
+        "technique": "property-based testing: Hypothesis vs fractions.Fraction oracle",
+    },
     "C18": {
         "text": "Generated-input search against an independent table of all 7-smooth numbers below 2^64: exhaustive for 0 <= N < 10^6 (10^7 thorough), "
                 "at s-1, s, s+1 and the midpoint for the 7-smooth s < 2^62 (all of them in the thorough tier), Hypothesis integers over [0, 2^62), and "
